@@ -589,7 +589,15 @@ def run():
         # 1. the table
         cfg = "EgoFmt_Gen.cfg" if thorough else "EgoFmt_Genq.cfg"
         text = open(os.path.join(vf.VERIF, "spec", "EgoFmt", cfg)).read().replace("Seed = 1", "Seed = %d" % vf.SEED)
-        r = vf.tlc("EgoFmt", "EgoFmt_Gen", cfg, sd, timeout=2400, files={cfg: text}, env=JENV)
+        dev = int(os.environ.get("C05_DEV_SAMPLE", "0") or "0")      # development aid: a sample only, never a verdict
+        if dev and os.environ.get("C05_DEV_TLC") and os.path.exists(os.environ["C05_DEV_TLC"]):
+            import pickle
+            r = pickle.load(open(os.environ["C05_DEV_TLC"], "rb"))
+        else:
+            r = vf.tlc("EgoFmt", "EgoFmt_Gen", cfg, sd, timeout=2400, files={cfg: text}, env=JENV)
+            if dev and os.environ.get("C05_DEV_TLC"):
+                import pickle
+                pickle.dump(r, open(os.environ["C05_DEV_TLC"], "wb"))
         vf.tlc_ok(r, "EgoFmt_Gen")
         chk.add_tlc(r, "table: every program built, evaluated, theorems checked")
         pre = [x for x in r.records if isinstance(x, dict) and "prelude" in x]
@@ -603,17 +611,20 @@ def run():
         chk.cov["exhaustive"] = thorough
         chk.cov["programs"] = len(cases)
         # 2. negative control
-        rn = vf.tlc("EgoFmt", "EgoFmt_Gen", "EgoFmt_MC_asis.cfg", sd, timeout=1500, env=JENV)
-        if rn.violated != "HeaderBraceSound":
-            raise vf.NoVerdict("negative control: the as-found header rule did not violate HeaderBraceSound (%s %s)" % (rn.violated, rn.error))
-        chk.add_tlc(rn, "negative control: as-found header rule violates HeaderBraceSound", count_states=False)
-        # 3. the spec against Go
-        go_crosscheck(chk, cases, prelude_toks, sd)
+        if not (dev and os.environ.get("C05_DEV_EGO")):
+            rn = vf.tlc("EgoFmt", "EgoFmt_Gen", "EgoFmt_MC_asis.cfg", sd, timeout=1500, env=JENV)
+            if rn.violated != "HeaderBraceSound":
+                raise vf.NoVerdict("negative control: the as-found header rule did not violate HeaderBraceSound (%s %s)" % (rn.violated, rn.error))
+            chk.add_tlc(rn, "negative control: as-found header rule violates HeaderBraceSound", count_states=False)
+            # 3. the spec against Go
+            go_crosscheck(chk, cases, prelude_toks, sd)
         # 4. the real formatter and interpreter
-        ov = vf.make_overlay(sd)
-        ego = vf.build_ego(sd, ov)
+        if dev and os.environ.get("C05_DEV_EGO"):
+            ego = os.environ["C05_DEV_EGO"]
+        else:
+            ov = vf.make_overlay(sd)
+            ego = vf.build_ego(sd, ov)
         env = vf.ego_env(sd)
-        dev = int(os.environ.get("C05_DEV_SAMPLE", "0") or "0")      # development aid: a sample only, never a verdict
         if dev:
             cases = rng.sample(cases, min(dev, len(cases)))
         units = [Unit(c, vi) for c in cases for vi in range(len(c["vars"]))]
@@ -626,10 +637,10 @@ def run():
         while pending:
             rounds += 1
             files = []
-            for shape, vi, us in pending:
+            for g, (shape, vi, us) in enumerate(pending):
                 pack = PACK if rounds < 4 else 1
                 for k in range(0, len(us), pack):
-                    files.append(SrcFile("r%d_%s_%d_%d" % (rounds, shape, vi, k // pack), us[k:k + pack], shape, prelude))
+                    files.append(SrcFile("r%d_%s_g%d_%d" % (rounds, shape, g, k // pack), us[k:k + pack], shape, prelude))
             vf.log("round %d: %d files, %d units" % (rounds, len(files), sum(len(f.units) for f in files)))
             nproc += process_files(files, sd, ego, env, "round%d" % rounds)
             nxt = {}
